@@ -129,7 +129,7 @@ fn valid_args(k: u8, nsheets: usize) -> (u32, i32, i32, f64, bool) {
 
 fn undo_step(k: u8, id_undo: &'static str, id_redo: &'static str, id_sel: &'static str) {
     let sheet_op = k >= 8 && k <= 12;
-    let mut um = if sheet_op { any_user_model(3, false, true) } else { any_user_model(2, true, false) };
+    let mut um = if sheet_op { any_user_model(3, true, true) } else { any_user_model(2, true, false) };
     let n = um.model.workbook.worksheets.len();
     let (sheet, a, b, w, flag) = valid_args(k, n);
     let (x, y) = (any_col_index(), any_row_index());
@@ -267,7 +267,7 @@ pub fn h_c02_history_cursor() {
 /// `apply_external_diffs`, with the bitcode encoding of the queue cut out - shows the same observables
 fn replica_step(k: u8, id: &'static str) {
     let sheet_op = k >= 8 && k <= 12;
-    let wb = if sheet_op { any_workbook_with(3, false, true) } else { any_workbook_with(2, true, false) };
+    let wb = if sheet_op { any_workbook_with(3, true, true) } else { any_workbook_with(2, true, false) };
     let mut primary = user_model_paused(wb.clone());
     let mut replica = user_model_paused(wb);
     let n = primary.model.workbook.worksheets.len();
